@@ -10,33 +10,53 @@ Import ListNotations.
 Local Open Scope Z_scope.
 
 (* ---------- dropOldData never discards a byte that has not been read ---------- *)
+Lemma drop_all_containing : forall d tg tp fsz x, tg <= x ->
+  containing (drop_all d tg tp fsz) x = containing d x.
+Proof.
+  induction d as [|c r IH]; intros tg tp fsz x Hx; cbn [drop_all]; [reflexivity|].
+  destruct ((tg <? c_end c) || (tp <? c_end c) || (fsz <? c_end c)) eqn:G; [reflexivity|].
+  rewrite IH by exact Hx.
+  apply orb_false_elim in G. destruct G as [G _]. apply orb_false_elim in G. destruct G as [G _].
+  apply Z.ltb_ge in G. unfold containing. cbn [find].
+  replace (contains x c) with false; [reflexivity|].
+  unfold contains. symmetry. apply andb_false_intro2. apply Z.ltb_ge. lia.
+Qed.
+
 (* for every position x at or after the get position, the container that holds x (and hence the
    byte stored for x) is the same before and after dropOldData — whatever the container list is *)
 Theorem drop_keeps_unread : forall s x, u_tellg s <= x ->
   containing (u_data (uf_drop s)) x = containing (u_data s) x.
+Proof. intros s x Hx. unfold uf_drop. cbn [u_data]. apply drop_all_containing. exact Hx. Qed.
+
+Lemma drop_all_suffix : forall d tg tp fsz, exists gone,
+  d = gone ++ drop_all d tg tp fsz /\ Forall (fun c => c_end c <= tg /\ c_end c <= tp /\ c_end c <= fsz) gone /\
+  match drop_all d tg tp fsz with
+  | [] => True
+  | c :: _ => tg < c_end c \/ tp < c_end c \/ fsz < c_end c
+  end.
 Proof.
-  intros s x Hx. unfold uf_drop. destruct (u_data s) as [|c r] eqn:D; [rewrite D; reflexivity|].
-  destruct ((u_tellg s <? c_end c) || (u_tellp s <? c_end c) || (u_fsz s <? c_end c)) eqn:G.
-  - rewrite D. reflexivity.
-  - cbn [u_data]. apply orb_false_elim in G. destruct G as [G _]. apply orb_false_elim in G. destruct G as [G _].
-    apply Z.ltb_ge in G. unfold containing. cbn [find].
-    replace (contains x c) with false; [reflexivity|].
-    unfold contains. symmetry. apply andb_false_intro2. apply Z.ltb_ge. lia.
+  induction d as [|c r IH]; intros tg tp fsz; cbn [drop_all].
+  - exists []. repeat split; constructor.
+  - destruct ((tg <? c_end c) || (tp <? c_end c) || (fsz <? c_end c)) eqn:G.
+    + exists []. repeat split; [constructor|].
+      apply orb_prop in G. destruct G as [G|G]; [apply orb_prop in G; destruct G as [G|G]|]; apply Z.ltb_lt in G; auto.
+    + destruct (IH tg tp fsz) as (gone & E & F & M). exists (c :: gone). split; [cbn; f_equal; exact E|]. split; [|exact M].
+      constructor; [|exact F].
+      apply orb_false_elim in G. destruct G as [G G3]. apply orb_false_elim in G. destruct G as [G1 G2].
+      apply Z.ltb_ge in G1, G2, G3. auto.
 Qed.
 
-(* nor a byte at or after the put position or the declared end, and nothing else changes *)
+(* what is dropped is a prefix of the list, every dropped container lies wholly behind the get
+   position, the put position and the declared end, the first container kept does not, and nothing
+   else changes *)
 Theorem drop_frame : forall s,
   let s' := uf_drop s in
   u_tellg s' = u_tellg s /\ u_tellp s' = u_tellp s /\ u_fsz s' = u_fsz s /\ u_rd s' = u_rd s /\ u_gcount s' = u_gcount s /\
-  (u_data s' = u_data s \/ exists c, u_data s = c :: u_data s' /\ c_end c <= u_tellg s /\ c_end c <= u_tellp s /\ c_end c <= u_fsz s).
+  exists gone, u_data s = gone ++ u_data s' /\
+    Forall (fun c => c_end c <= u_tellg s /\ c_end c <= u_tellp s /\ c_end c <= u_fsz s) gone /\
+    match u_data s' with [] => True | c :: _ => u_tellg s < c_end c \/ u_tellp s < c_end c \/ u_fsz s < c_end c end.
 Proof.
-  intros s. unfold uf_drop. destruct (u_data s) as [|c r] eqn:D.
-  - rewrite D. repeat split; auto.
-  - destruct ((u_tellg s <? c_end c) || (u_tellp s <? c_end c) || (u_fsz s <? c_end c)) eqn:G.
-    + rewrite D. repeat split; auto.
-    + cbn. repeat split; auto. right. exists c.
-      apply orb_false_elim in G. destruct G as [G G3]. apply orb_false_elim in G. destruct G as [G1 G2].
-      apply Z.ltb_ge in G1, G2, G3. repeat split; auto.
+  intros s. cbn. repeat split; auto. apply drop_all_suffix.
 Qed.
 
 (* ---------- write(s, n): the put position advances by exactly n, whatever the chunking ---------- *)
@@ -154,6 +174,6 @@ Fixpoint urun (s : uf) (ops : list uop) : option (uf * list Z) :=
   end.
 Example ex_hist_fifo :
   match urun uf_init ex_hist with
-  | Some (s, bytes) => bytes = [1;2;3;4;5;6;7;8;9;10] /\ u_tellg s = 10 /\ u_tellp s = 10 /\ map c_pos (u_data s) = [5; 9]
+  | Some (s, bytes) => bytes = [1;2;3;4;5;6;7;8;9;10] /\ u_tellg s = 10 /\ u_tellp s = 10 /\ map c_pos (u_data s) = [9]
   | None => False end.
 Proof. vm_compute. repeat split; reflexivity. Qed.
